@@ -92,37 +92,6 @@ func c01(c *Ctx) {
 	st.export(c)
 }
 
-type l4Fail struct {
-	Kind   string // print-panic | print-error | no-refusal | reparse-error | reparse-panic | tree-diff | count
-	Mode   string // file | stmt#k | cmd#k | word#k
-	Detail string
-}
-
-func (f *l4Fail) String() string { return f.Mode + ": " + f.Kind + ": " + f.Detail }
-
-type l4Stats struct {
-	unparseable int
-	excluded    map[string]int
-	subnodes    int
-	reported    map[string]bool
-	failKinds   map[string]int
-}
-
-func newL4Stats() *l4Stats {
-	return &l4Stats{excluded: map[string]int{}, reported: map[string]bool{}, failKinds: map[string]int{}}
-}
-
-func (st *l4Stats) export(c *Ctx) {
-	c.Extra["unparseable_skipped"] = st.unparseable
-	c.Extra["subnodes_printed"] = st.subnodes
-	for k, v := range st.excluded {
-		c.Extra["excluded:"+k] = v
-	}
-	for k, v := range st.failKinds {
-		c.Extra["fail:"+k] = v
-	}
-}
-
 // c01Print prints n with tc's options and checks the refusal rule.  done=true means the case is
 // decided (either failed or the documented refusal happened).
 func c01Print(tc l4Case, n syntax.Node, mode string) (out string, fl *l4Fail, done bool) {
@@ -140,13 +109,6 @@ func c01Print(tc l4Case, n syntax.Node, mode string) (out string, fl *l4Fail, do
 		return "", &l4Fail{"print-error", mode, err.Error()}, true
 	}
 	return out, nil, false
-}
-
-func clip(s string, n int) string {
-	if len(s) > n {
-		return s[:n] + "…"
-	}
-	return s
 }
 
 // c01File executes the round-trip statement on the whole file.
@@ -348,299 +310,6 @@ func c01Report(c *Ctx, tc l4Case, fl *l4Fail, st *l4Stats) {
 	}
 	st.reported[w] = true
 	c.Fail(w, fmt.Sprintf("[%s %s] source %q: %s", t2.Lang, t2.Opts, clip(t2.Src, 200), r.String()))
-}
-
-// ---------------------------------------------------------------------------------------------
-// Recorded printer defects (known-findings.jsonl, property C01): exclusion predicates on
-// (options, tree shape).  A case matching a predicate is skipped (counted under `excluded:<id>`).
-
-func c01Excluded(tc l4Case, f *syntax.File, sh *shape) string {
-	o := tc.Opts
-	if o.Minify && o.Single {
-		return "" // only the refusal is checked
-	}
-	// C01-comment-backslash-newline (root cause in the lexer): a comment ending in a backslash
-	// swallows the newline, so the words of the next line join the command before the comment;
-	// the printer moves the comment behind them and the line after *that* joins on re-parse.
-	if commentEndsInBackslash(tc) {
-		return "C01-comment-backslash-newline"
-	}
-	// C01-single-missing-semicolon: SingleLine joins statements with `;` only when the printer's
-	// wroteSemi flag is false, but the flag is stale after a nested `&`, `{` or `;;`.
-	between, beforeKw := wroteSemiLeaks(f)
-	if o.Single && between {
-		return "C01-single-missing-semicolon"
-	}
-	// C01-stale-wrotesemi-keyword: the same stale flag suppresses the `;` before do/then/done/fi/}
-	// when the statement before the keyword ends in a word holding a nested `&` (`for i in $(a &); do`).
-	if beforeKw {
-		return "C01-stale-wrotesemi-keyword"
-	}
-	// C01-single-heredoc-test-let (root cause in the parser): a here-document body is not read
-	// when the line carrying the `<<` operator ends in `]]` or a `let` expression; SingleLine
-	// joins statements onto such lines.
-	if o.Single && hasHeredoc(f) && (sh.has("TestClause") || sh.has("LetClause") || sh.has("CaseClause") || sh.has("Subshell") ||
-		sh.has("CmdSubst") || sh.has("ProcSubst")) {
-		// SingleLine defers the body to the next forced newline; when that newline falls inside a
-		// construct the parser reads in a nested lexer state (( ), $( ), <( ), case, [[ ]], let) the
-		// parser treats the here-document as buried and never reads the body (bash does).
-		return "C01-single-heredoc-buried"
-	}
-	// C01-single-heredoc-in-heredoc: SingleLine prints a command substitution inside a
-	// here-document body on one line, so a here-document inside it is flushed after the outer
-	// delimiter.
-	if o.Single && sh.any(func(n syntax.Node) bool {
-		r, ok := n.(*syntax.Redirect)
-		return ok && r.Hdoc != nil && hasHeredoc(r.Hdoc)
-	}) {
-		return "C01-single-heredoc-in-heredoc"
-	}
-	// C01-quoted-heredoc-backslash-newline: when the body of a here-document starts more than one
-	// line below the printer's current line (escaped newline after the operator that the printer
-	// drops; other bodies in between when a node is printed on its own), wordParts(quoted=true)
-	// pads the gap with backslash-newlines *inside* the body — literal text if the delimiter is
-	// quoted.  Over-approximated on the tree: body line > delimiter word line + 1.
-	if sh.any(func(n syntax.Node) bool {
-		r, ok := n.(*syntax.Redirect)
-		return ok && r.Hdoc != nil && hdocDelimQuoted(r.Word) && r.Hdoc.Pos().Line() > r.Word.End().Line()+1
-	}) {
-		return "C01-quoted-heredoc-backslash-newline"
-	}
-	// C01-minify-last-case-op: Minify drops the operator of the last case item, so `;&` / `;;&`
-	// there re-parse as `;;` (not a documented rewrite).
-	if o.Minify && sh.any(func(n syntax.Node) bool {
-		cc, ok := n.(*syntax.CaseClause)
-		return ok && len(cc.Items) > 0 && cc.Items[len(cc.Items)-1].Op != syntax.Break
-	}) {
-		return "C01-minify-last-case-op"
-	}
-	// C01-mksh-case-braces: `case x { … }` is printed as `case x in … esac` (Braces lost; by design,
-	// not in the documented list).
-	if sh.any(func(n syntax.Node) bool { cc, ok := n.(*syntax.CaseClause); return ok && cc.Braces }) {
-		return "C01-mksh-case-braces"
-	}
-	// C01-procsubst-word-split: inside a word, a process substitution after a part that leaves
-	// wantSpace=spaceRequired (anything but a literal or single quotes; literals do not clear it)
-	// gets a space in front.
-	if sh.any(func(n syntax.Node) bool {
-		w, ok := n.(*syntax.Word)
-		if !ok {
-			return false
-		}
-		for i, p := range w.Parts {
-			if _, ok := p.(*syntax.ProcSubst); ok && i > 0 {
-				for _, q := range w.Parts[:i] {
-					switch q.(type) {
-					case *syntax.Lit, *syntax.SglQuoted:
-					default:
-						return true
-					}
-				}
-			}
-		}
-		return false
-	}) || sh.any(func(n syntax.Node) bool {
-		// a redirection's word starts with wantSpace=spaceRequired, which literals do not clear
-		r, ok := n.(*syntax.Redirect)
-		if !ok || r.Word == nil {
-			return false
-		}
-		for i, p := range r.Word.Parts {
-			if _, ok := p.(*syntax.ProcSubst); ok && i > 0 {
-				return true
-			}
-		}
-		return false
-	}) {
-		return "C01-procsubst-word-split"
-	}
-	// C01-heredoc-pipe-test-let (root cause in the parser, see C01-single-heredoc-buried): a
-	// pending here-document keeps `| [[ … ]]` / `&& let …` on the operator's line, and the parser
-	// does not read a body when that line ends in `]]` or a let expression.
-	if sh.any(func(n syntax.Node) bool {
-		b, ok := n.(*syntax.BinaryCmd)
-		return ok && hasHeredoc(b.X) && (containsType(b.Y, "TestClause") || containsType(b.Y, "LetClause"))
-	}) {
-		return "C01-heredoc-pipe-test-let"
-	}
-	// C01-dashhdoc-escaped-newline: an escaped newline inside the body of an unquoted <<-
-	// here-document is re-created by the printer, and with tab indentation the continuation line
-	// is indented with tabs that are not stripped (they are not at the start of a logical line).
-	if o.Indent == 0 && !o.Minify && !o.Single && sh.any(func(n syntax.Node) bool {
-		r, ok := n.(*syntax.Redirect)
-		if !ok || r.Op != syntax.DashHdoc || r.Hdoc == nil {
-			return false
-		}
-		for i := 0; i+1 < len(r.Hdoc.Parts); i++ {
-			_, ok1 := r.Hdoc.Parts[i].(*syntax.Lit)
-			_, ok2 := r.Hdoc.Parts[i+1].(*syntax.Lit)
-			if ok1 && ok2 {
-				return true
-			}
-		}
-		return false
-	}) {
-		return "C01-dashhdoc-escaped-newline"
-	}
-	// C01-dashhdoc-inner-tab: with tab indentation (Indent 0, no Minify) the body of a <<-
-	// here-document is written through extraIndenter, which escapes only the leading tabs; a tab
-	// further inside a line reaches text/tabwriter unescaped and is turned into padding spaces.
-	if o.Indent == 0 && !o.Minify && sh.any(func(n syntax.Node) bool {
-		r, ok := n.(*syntax.Redirect)
-		if !ok || r.Op != syntax.DashHdoc || r.Hdoc == nil {
-			return false
-		}
-		ls := true
-		for _, p := range r.Hdoc.Parts {
-			l, ok := p.(*syntax.Lit)
-			if !ok {
-				ls = false
-				continue
-			}
-			for i := 0; i < len(l.Value); i++ {
-				switch b := l.Value[i]; {
-				case b == '\t' && !ls:
-					return true
-				case b == '\t':
-				default:
-					ls = b == '\n'
-				}
-			}
-		}
-		return false
-	}) {
-		return "C01-dashhdoc-inner-tab"
-	}
-	// C01-heredoc-then-multiline-subst: a here-document is pending and a command/process
-	// substitution later on the same line gets a newline inside (it spans lines, holds two
-	// statements, holds a function under FunctionNextLine, or — Minify — rightParen asks for one
-	// whenever a here-document is pending): the pending body is flushed inside the substitution.
-	if hasHeredoc(f) && !o.Single && sh.any(func(n syntax.Node) bool {
-		r, ok := n.(*syntax.Redirect)
-		if !ok || (r.Op != syntax.Hdoc && r.Op != syntax.DashHdoc) {
-			return false
-		}
-		return sh.any(func(m syntax.Node) bool {
-			var left, right syntax.Pos
-			var nst int
-			switch c := m.(type) {
-			case *syntax.CmdSubst:
-				left, right, nst = c.Left, c.Right, len(c.Stmts)
-			case *syntax.ProcSubst:
-				left, right, nst = c.OpPos, c.Rparen, len(c.Stmts)
-			default:
-				return false
-			}
-			return left.After(r.OpPos) && left.Line() == r.OpPos.Line() &&
-				(right.Line() > left.Line() || nst > 1 || o.Minify || (o.FuncNext && containsType(m, "FuncDecl")))
-		})
-	}) {
-		return "C01-heredoc-then-multiline-subst"
-	}
-	// C01-zsh-minify-short-subscript: Minify turns `${x}[b]` into `$x[b]`, which zsh reads as a
-	// subscript (the printer only guards against name characters following).
-	if o.Minify && tc.Lang == syntax.LangZsh && sh.any(func(n syntax.Node) bool {
-		var parts []syntax.WordPart
-		switch x := n.(type) {
-		case *syntax.Word:
-			parts = x.Parts
-		case *syntax.DblQuoted:
-			parts = x.Parts
-		}
-		for i, p := range parts {
-			if pe, ok := p.(*syntax.ParamExp); ok && !pe.Short && paramSimple(pe) && i+1 < len(parts) {
-				if l, ok := parts[i+1].(*syntax.Lit); ok && strings.HasPrefix(l.Value, "[") {
-					return true
-				}
-			}
-		}
-		return false
-	}) {
-		return "C01-zsh-minify-short-subscript"
-	}
-	// C01-zsh-redirect-paren-word: zsh `> (0)` (redirection to a word starting with a parenthesis)
-	// is printed `>(0)`, a process substitution.
-	if tc.Lang == syntax.LangZsh && !o.SpaceRedir && sh.any(func(n syntax.Node) bool {
-		r, ok := n.(*syntax.Redirect)
-		if !ok || r.Word == nil || len(r.Word.Parts) == 0 || (r.Op != syntax.RdrOut && r.Op != syntax.RdrIn) {
-			return false
-		}
-		l, ok := r.Word.Parts[0].(*syntax.Lit)
-		return ok && strings.HasPrefix(l.Value, "(")
-	}) {
-		return "C01-zsh-redirect-paren-word"
-	}
-	// C01-minify-empty-block: Minify prints an empty block (mksh, zsh) as `{}`, a word.
-	if o.Minify && sh.any(func(n syntax.Node) bool {
-		b, ok := n.(*syntax.Block)
-		return ok && len(b.Stmts) == 0
-	}) {
-		return "C01-minify-empty-block"
-	}
-	// C01-tabwriter-vt-ff: a vertical tab or form feed in a literal, quoted string or comment is
-	// written unescaped through text/tabwriter, which treats both as cell/flush controls and
-	// drops them.
-	if strings.ContainsAny(tc.Src, "\v\f") {
-		return "C01-tabwriter-vt-ff"
-	}
-	// C01-arith-sign-glue: `- -a`, `+ +a`, `- --a` print as `--a`, `++a`, `---a`; compact
-	// printing (Minify, ${a:x:y}) also glues `a - -b` into `a--b`.
-	if anyArithGlue(sh, o.Minify) {
-		return "C01-arith-sign-glue"
-	}
-	// C01-dollar-backquote: a literal ending in `$` (or zsh `$#`) followed by a backquoted
-	// substitution prints as `$$(` / `$#$(`, which re-parses as the parameter `$$` / `${#$}`.
-	if sh.any(func(n syntax.Node) bool {
-		var parts []syntax.WordPart
-		switch x := n.(type) {
-		case *syntax.Word:
-			parts = x.Parts
-		case *syntax.DblQuoted:
-			parts = x.Parts
-		}
-		for i, p := range parts {
-			if cs, ok := p.(*syntax.CmdSubst); ok && cs.Backquotes && i > 0 {
-				if l, ok := parts[i-1].(*syntax.Lit); ok && strings.HasSuffix(l.Value, "$") {
-					return true
-				}
-				if pe, ok := parts[i-1].(*syntax.ParamExp); ok && tc.Lang == syntax.LangZsh && pe.Short && pe.Param != nil && pe.Param.Value == "#" {
-					return true
-				}
-			}
-		}
-		return false
-	}) {
-		return "C01-dollar-backquote"
-	}
-	// C01-funcdecl-leading-redirect: a redirection written before a function declaration is
-	// printed after the body and re-parses as a redirection of the body.
-	if sh.any(func(n syntax.Node) bool {
-		st, ok := n.(*syntax.Stmt)
-		if !ok || len(st.Redirs) == 0 {
-			return false
-		}
-		_, isFn := st.Cmd.(*syntax.FuncDecl)
-		return isFn
-	}) {
-		return "C01-funcdecl-leading-redirect"
-	}
-	// C01-coproc-name-assign (root cause in the parser): `coproc w a=` / `coproc a=` — the word
-	// first taken as the coproc name is pushed back as a call argument although an assignment
-	// follows or the word itself has assignment form.
-	if sh.any(func(n syntax.Node) bool {
-		cc, ok := n.(*syntax.CoprocClause)
-		if !ok || cc.Name != nil || cc.Stmt == nil {
-			return false
-		}
-		ce, ok := cc.Stmt.Cmd.(*syntax.CallExpr)
-		if !ok || len(ce.Args) == 0 {
-			return false
-		}
-		return len(ce.Assigns) > 0 || looksLikeAssign(ce.Args[0])
-	}) {
-		return "C01-coproc-name-assign"
-	}
-	return ""
 }
 
 // c01SubExcluded: exclusions that only concern a node printed on its own.
